@@ -56,6 +56,11 @@ pub struct Case {
     /// (the residentKey mapping does not depend on it)
     #[serde(default)]
     pub attachment: u8,
+    /// the authenticator's user verification: 0 configured, 1 supported but not configured, 2 none
+    /// (with 1 and 2 every ceremony asks userVerification = discouraged, or it would be refused for
+    /// that reason); what the authenticator can verify has no say in what it can store
+    #[serde(default)]
+    pub uv_cap: u8,
 }
 fn with_case_origin<R>(c: &Case, org: super::common::Org, f: impl FnOnce(passkey_client::Origin<'_>) -> R) -> R {
     match &c.host {
@@ -108,27 +113,37 @@ pub fn cases() -> Vec<Case> {
                                 // the wrappers are spread over the configuration cells, and every
                                 // residentKey x capability cell meets every wrapper with default configuration
                                 let wrap = (hmac + prf + u8::from(counter)) % 4;
-                                v.push(Case { cap, resident_key, require_resident_key, cred_props, ctap: false, rk: false, cfg, prf, wrap, prior: 0, android: false, during: 0, host: None, attachment: 0 });
+                                v.push(Case { cap, resident_key, require_resident_key, cred_props, ctap: false, rk: false, cfg, prf, wrap, prior: 0, android: false, during: 0, host: None, attachment: 0, uv_cap: 0 });
                                 if wrap == 0 {
-                                    v.push(Case { cap, resident_key, require_resident_key, cred_props, ctap: false, rk: false, cfg, prf, wrap, prior: 0, android: true, during: 0, host: None, attachment: 0 });
+                                    v.push(Case { cap, resident_key, require_resident_key, cred_props, ctap: false, rk: false, cfg, prf, wrap, prior: 0, android: true, during: 0, host: None, attachment: 0, uv_cap: 0 });
                                     if cred_props == 2 {
                                         for during in 1..3u8 {
-                                            v.push(Case { cap, resident_key, require_resident_key, cred_props, ctap: false, rk: false, cfg, prf, wrap, prior: 0, android: false, during, host: None, attachment: 0 });
+                                            v.push(Case { cap, resident_key, require_resident_key, cred_props, ctap: false, rk: false, cfg, prf, wrap, prior: 0, android: false, during, host: None, attachment: 0, uv_cap: 0 });
                                         }
                                     }
                                 }
                                 if hmac == 0 && prf == 0 && !counter {
                                     for wrap in 1..4u8 {
-                                        v.push(Case { cap, resident_key, require_resident_key, cred_props, ctap: false, rk: false, cfg, prf, wrap, prior: 0, android: false, during: 0, host: None, attachment: 0 });
+                                        v.push(Case { cap, resident_key, require_resident_key, cred_props, ctap: false, rk: false, cfg, prf, wrap, prior: 0, android: false, during: 0, host: None, attachment: 0, uv_cap: 0 });
                                     }
                                     for prior in 1..3u8 {
                                         for wrap in [0u8, 1] {
-                                            v.push(Case { cap, resident_key, require_resident_key, cred_props, ctap: false, rk: false, cfg, prf, wrap, prior, android: false, during: 0, host: None, attachment: 0 });
+                                            v.push(Case { cap, resident_key, require_resident_key, cred_props, ctap: false, rk: false, cfg, prf, wrap, prior, android: false, during: 0, host: None, attachment: 0, uv_cap: 0 });
                                         }
                                     }
                                 }
                             }
                         }
+                    }
+                }
+            }
+        }
+        // authenticators without (configured) user verification
+        for resident_key in 1..5 {
+            for require_resident_key in [false, true] {
+                for cred_props in [0u8, 2] {
+                    for uv_cap in 1..3u8 {
+                        v.push(Case { cap, resident_key, require_resident_key, cred_props, ctap: false, rk: false, cfg: Default::default(), prf: 0, wrap: 0, prior: 0, android: false, during: 0, host: None, attachment: 0, uv_cap });
                     }
                 }
             }
@@ -139,7 +154,7 @@ pub fn cases() -> Vec<Case> {
                 for cred_props in [0u8, 2] {
                     for attachment in 1..3u8 {
                         for wrap in [0u8, 2] {
-                            v.push(Case { cap, resident_key, require_resident_key, cred_props, ctap: false, rk: false, cfg: Default::default(), prf: 0, wrap, prior: 0, android: false, during: 0, host: None, attachment });
+                            v.push(Case { cap, resident_key, require_resident_key, cred_props, ctap: false, rk: false, cfg: Default::default(), prf: 0, wrap, prior: 0, android: false, during: 0, host: None, attachment, uv_cap: 0 });
                         }
                     }
                 }
@@ -148,17 +163,17 @@ pub fn cases() -> Vec<Case> {
         // host-like constants of the client's sources as relying parties
         for host in dict_hosts() {
             for (resident_key, cred_props) in [(0u8, 2u8), (4, 2), (3, 0)] {
-                v.push(Case { cap, resident_key, require_resident_key: false, cred_props, ctap: false, rk: false, cfg: Default::default(), prf: 0, wrap: 0, prior: 0, android: false, during: 0, host: Some(host.clone()), attachment: 0 });
+                v.push(Case { cap, resident_key, require_resident_key: false, cred_props, ctap: false, rk: false, cfg: Default::default(), prf: 0, wrap: 0, prior: 0, android: false, during: 0, host: Some(host.clone()), attachment: 0, uv_cap: 0 });
             }
         }
         for rk in [false, true] {
             for (hmac, hmac_mc) in [(0u8, false), (2, true)] {
                 let cfg = super::common::AuthCfg { counter: hmac != 0, id_len: (hmac != 0).then_some(32), hmac, hmac_mc, order: 0 };
                 for wrap in 0..4u8 {
-                    v.push(Case { cap, resident_key: 0, require_resident_key: false, cred_props: 0, ctap: true, rk, cfg, prf: 0, wrap, prior: 0, android: false, during: 0, host: None, attachment: 0 });
+                    v.push(Case { cap, resident_key: 0, require_resident_key: false, cred_props: 0, ctap: true, rk, cfg, prf: 0, wrap, prior: 0, android: false, during: 0, host: None, attachment: 0, uv_cap: 0 });
                 }
                 for prior in 1..3u8 {
-                    v.push(Case { cap, resident_key: 0, require_resident_key: false, cred_props: 0, ctap: true, rk, cfg, prf: 0, wrap: 0, prior, android: false, during: 0, host: None, attachment: 0 });
+                    v.push(Case { cap, resident_key: 0, require_resident_key: false, cred_props: 0, ctap: true, rk, cfg, prf: 0, wrap: 0, prior, android: false, during: 0, host: None, attachment: 0, uv_cap: 0 });
                 }
             }
         }
@@ -211,7 +226,12 @@ where
     let case = serde_json::to_value(c).unwrap();
     let mut fs = vec![];
     let cap = cap_of(c.cap);
-    let auth = super::common::mk_auth(handed, ScriptedUv::consenting(log.clone()), &c.cfg);
+    let uvm = match c.uv_cap {
+        0 => ScriptedUv::consenting(log.clone()),
+        1 => ScriptedUv::consenting(log.clone()).cap(Some(false)).outcome(UvOutcome::Ok { presence: true, verification: false }),
+        _ => ScriptedUv::consenting(log.clone()).cap(None).outcome(UvOutcome::Ok { presence: true, verification: false }),
+    };
+    let auth = super::common::mk_auth(handed, uvm, &c.cfg);
     let org = if c.android { super::common::Org::Android } else { super::common::Org::HostIsRp };
     let supports = cap != Cap::OnlyNonDiscoverable;
     let rk = if c.ctap { c.rk } else { expected_rk(c, supports) };
@@ -271,7 +291,7 @@ where
                 _ => None,
             },
             require_resident_key: c.require_resident_key,
-            user_verification: Default::default(),
+            user_verification: if c.uv_cap != 0 { webauthn::UserVerificationRequirement::Discouraged } else { Default::default() },
         });
         let prf = match c.prf {
             0 | 3 => None,
@@ -365,7 +385,7 @@ where
     // discouraged on a second client whose user is present but not verified
     let id = new_id.unwrap_or_default();
     for unverified in [false, true] {
-    let opts = request_options(Auth { rp_id: c.android.then(|| "example.com".to_string()), allow: Some(vec![id.clone()]), uv: if unverified { webauthn::UserVerificationRequirement::Discouraged } else { Default::default() }, ..Default::default() });
+    let opts = request_options(Auth { rp_id: c.android.then(|| "example.com".to_string()), allow: Some(vec![id.clone()]), uv: if unverified || c.uv_cap != 0 { webauthn::UserVerificationRequirement::Discouraged } else { Default::default() }, ..Default::default() });
     let res = if unverified {
         let uv2 = ScriptedUv::consenting(Log::new()).outcome(UvOutcome::Ok { presence: true, verification: false });
         let mut c2 = Client::new(Authenticator::new(Aaguid::new_empty(), store.clone(), uv2));
@@ -446,7 +466,7 @@ pub fn run(ctx: &Ctx) -> Result<Run, String> {
     let n = cs.len() as u64;
     let mut run = Run::from_stats(
         "model_checking",
-        "complete product store capability(3) x residentKey{no selection, absent, discouraged, preferred, required} x requireResidentKey(2) x authenticatorAttachment{absent, platform, cross-platform} x credProps{absent,false,true} x authenticator configuration {no hmac-secret, UV-only, with non-UV secret, with evaluation at creation} x prf input {absent, empty, eval, pre-hashed only, both} x counters on/off, the store handed over bare / inside Arc<Mutex> / Arc<RwLock> / Mutex (the shipped lock wrappers), on a fresh authenticator and on one that earlier answered getInfo / registered while the store had another capability, from the web origin and from an Android app origin, and with every dotted host-like string constant of the client's sources (and www.<it>, x<it>) as relying party where the client accepts it, through Client::register + Client::authenticate, plus capability(3) x rk(2) through Authenticator::make_credential; imported credentials whose user handle equals / prefixes / extends / reverses the credential id, equals the RP ID bytes or is empty return exactly that handle; each configuration runs a registration and two assertions with the new credential (default requirement with a verified user; verification discouraged with a present but unverified user); every configuration is non-trivial (it reaches save_credential or the required-rk refusal)",
+        "complete product store capability(3) x residentKey{no selection, absent, discouraged, preferred, required} x requireResidentKey(2) x authenticatorAttachment{absent, platform, cross-platform} x user-verification capability of the authenticator {configured, unconfigured, none} x credProps{absent,false,true} x authenticator configuration {no hmac-secret, UV-only, with non-UV secret, with evaluation at creation} x prf input {absent, empty, eval, pre-hashed only, both} x counters on/off, the store handed over bare / inside Arc<Mutex> / Arc<RwLock> / Mutex (the shipped lock wrappers), on a fresh authenticator and on one that earlier answered getInfo / registered while the store had another capability, from the web origin and from an Android app origin, and with every dotted host-like string constant of the client's sources (and www.<it>, x<it>) as relying party where the client accepts it, through Client::register + Client::authenticate, plus capability(3) x rk(2) through Authenticator::make_credential; imported credentials whose user handle equals / prefixes / extends / reverses the credential id, equals the RP ID bytes or is empty return exactly that handle; each configuration runs a registration and two assertions with the new credential (default requirement with a verified user; verification discouraged with a present but unverified user); every configuration is non-trivial (it reaches save_credential or the required-rk refusal)",
         true,
         stats,
     );
